@@ -354,6 +354,31 @@ theorem flatten_correct_defer_partial (E : Env σ) (D : DEnv σ V) (pending : σ
   ⟨flatten_correct E forget hE sched body hev hg hst,
    (return_resume D forget schedD named hD (pending st1) st1 (eval_stable hE hev hst)).1⟩
 
+/-- **suspend_saves_all_defer_frames** — when the goroutine suspends, EVERY frame on the unwinding path is saved, however
+    many of them hold pending defers, provided each such frame's `$deferred` list is somewhere on the goroutine's
+    deferStack (it is: callees' lists are above it, nothing is popped while asleep). By induction over the call depth. -/
+theorem suspend_saves_all_defer_frames (stack : List Nat) :
+    ∀ (frames : List (Option Nat)), (∀ d, some d ∈ frames → d ∈ stack) →
+      unwind guardAnywhere stack frames = some frames.length := by
+  intro frames
+  induction frames with
+  | nil => intro _; rfl
+  | cons f fs ih =>
+    intro h
+    have ih' := ih (fun d hd => h d (List.mem_cons_of_mem _ hd))
+    cases f with
+    | none => simp [unwind, ih']
+    | some d =>
+      have hm : d ∈ stack := h d (List.mem_cons_self ..)
+      simp [unwind, guardAnywhere, hm, ih']
+
+/-- **suspend_top_only_counterexample** — with the guard "my list is the TOP of the deferStack", two nested frames with
+    pending defers (inner list 2 above outer list 1) are not both saved: the outer frame throws `null` instead. A single
+    frame with defers is unaffected. -/
+theorem suspend_top_only_counterexample :
+    unwind guardTop [2, 1] [some 2, some 1] = none ∧ unwind guardAnywhere [2, 1] [some 2, some 1] = some 2 ∧
+    unwind guardTop [1] [none, some 1] = some 2 := by decide
+
 /-! ### Expression-level flattening -/
 
 /-- **andor_flat** — the flattened `_v = a && b()` (and `a || b()`) with a blocking right operand, embedded anywhere in a
